@@ -213,9 +213,66 @@ func (c *Ctx) nilSummaries(a *parserAnchors) *nilSummaries {
 					}
 				}
 			})
+			// a computed bool result (`return terminated`, a variable merged from several assignments): decided path by
+			// path — every way the result can be false must have recorded an error on that path
+			if ns.falseIsErr[f] && hasComputedBoolResult(f) {
+				refuted := false
+				complete := a.enumPaths(f.Blocks[0], func(facts []pathFact, blocks []*ssa.BasicBlock, last *ssa.BasicBlock) {
+					r, ok := last.Instrs[len(last.Instrs)-1].(*ssa.Return)
+					if !ok || len(r.Results) != 1 || refuted {
+						return
+					}
+					if _, isK := r.Results[0].(*ssa.Const); isK {
+						return // handled above
+					}
+					for _, ra := range a.returnAlternatives(r.Results[0], facts, blocks, last) {
+						if ra.val {
+							continue
+						}
+						recorded := false
+						for _, blk := range blocks {
+							for _, call := range callsIn(blk) {
+								if a.errRecorders[call.Call.StaticCallee()] {
+									recorded = true
+								}
+							}
+						}
+						for _, pf := range ra.facts {
+							if pf.at.kind == atCall && pf.at.neg && pf.at.call != nil && ns.falseIsErr[pf.at.call.Call.StaticCallee()] {
+								recorded = true
+							}
+						}
+						if !recorded {
+							refuted = true
+						}
+					}
+				})
+				if refuted || !complete {
+					ns.falseIsErr[f] = false
+					changed = true
+				}
+			}
 		}
 	}
 	return ns
+}
+
+func hasComputedBoolResult(f *ssa.Function) bool {
+	if f.Signature.Results().Len() != 1 {
+		return false
+	}
+	if b, ok := f.Signature.Results().At(0).Type().Underlying().(*types.Basic); !ok || b.Kind() != types.Bool {
+		return false
+	}
+	found := false
+	allInstrs(f, func(_ *ssa.BasicBlock, _ int, in ssa.Instruction) {
+		if r, ok := in.(*ssa.Return); ok && len(r.Results) == 1 {
+			if _, isK := r.Results[0].(*ssa.Const); !isK {
+				found = true
+			}
+		}
+	})
+	return found
 }
 
 func returnsNilValue(ns *nilSummaries, v ssa.Value, seen map[ssa.Value]bool) bool {
